@@ -7,7 +7,7 @@ import ast
 
 from .. import AnalysisError
 from ..report import norm_text
-from . import _layout, _pipe
+from . import _inst, _layout, _pipe
 
 
 def atoms_of_desc(d):
@@ -273,7 +273,7 @@ def check(index, ctx):
             n_main += 1
             if stage_rule(ctx, run, res, "R1", "tensors", cols, entry):
                 cotangent_rule(ctx, res, "R1", "tensors", entry)
-                _layout.check_layout(ctx, "R2", res)
+                _layout.check_layout(ctx, "R2", res, row_order=lambda run=run: _inst.verdict(index, run.entry, "order", chunk=bool(run.variant.get("chunk"))))
                 materialise_rule(ctx, res, "R4", entry)
         # a returning path that skipped the pipeline without an empty collection is caught by stage_rule (it is a main path)
     idiom_rules(ctx, index, "R2")
